@@ -75,3 +75,8 @@ claim("C12", "DESIGN.md 5 C12",
       "Payloader: frames written by an independent uncompressed-header bit writer (profiles 0-3 x bit depth x all 8 colour spaces x range x subsampling; 36 sizes; key / inter / intra-only / show-existing) x 5 length classes relative to the MTU x 8 MTUs x flexible/non-flexible x 7 sources of the initial picture id (InitialPictureIDFn incl. 0x7FFE/0x7FFF for the wrap, and the random seam), three frames per instance; every packet decoded by VP9Packet: concatenation = frame, B/E, constant 15-bit picture id +1 per frame mod 2^15, F, P, scalability structure with the coded size on the first packet of a non-flexible key frame, <= MTU. Header parser compared field by field with what was written, incl. every width/height value 1..65536 (thorough). Decoder: ALL 256 flag octets x picture id forms x layer indices x 1-3 P_DIFFs (fourth rejected) x scalability structures (N_S, Y, G, N_G, R) x 0/1/3 payload bytes from an independent descriptor encoder, with EVERY truncation.",
       "Alphabets and the reading of P for intra-only/show-existing frames in the evidence assumptions; SID >= 5 and coded width 65536 are not demanded (DESIGN.md 5.0).",
       "bounded exhaustive enumeration against an independent VP9 descriptor encoder and uncompressed-header bit writer (explicit choice-tree DFS on the real code)")
+
+claim("C13", "DESIGN.md 5 C13",
+      "Every OBU sequence of the stated alphabets (1-2 OBUs over 9 types x 5 extension settings x 8-13 sizes around the MTU and the 127/128 LEB128 boundary; 3-4 (thorough 5) OBUs over reduced alphabets) x 10 MTUs x size field on all / omitted on the last is packetized by the real AV1Payloader; an independent checker parses every payload and enforces the aggregation rules (<= MTU, W = element count or 0 with all elements length-prefixed, Z = previous Y, last Y = 0, no empty element, size flag cleared, no two layer ids per packet) and reassembles the OBUs; the same payloads go through one AV1Depacketizer (output = OBUs with size fields, temporal delimiters and tile lists removed) and through fresh AV1Packets + one frame.AV1 assembler. Complete sub-domains: LEB128 write/read for ALL 2^32 values (thorough; boundary neighbourhoods quick) incl. minimality and the deprecated aliases; ALL 2^16 OBU header byte pairs parse->marshal and marshal->parse.",
+      "OBU sequences of 6-8 units and alphabets beyond the stated ones are outside the bound.",
+      "bounded exhaustive enumeration against an independent AV1 RTP aggregation-rule checker and OBU writer; complete enumeration of LEB128 and OBU-header domains (explicit choice-tree DFS on the real code)")
